@@ -282,6 +282,24 @@ def search(ctx):
                 g2 = run_impl(Bec2File.read_file, io.StringIO(text), decs_of([kx]), True)
                 if g2[0] != "ok":
                     ctx.fail("splice-control", {"kinds": [kx, ky]}, repr(g2)[:200])
+        # (2b) a file none of whose blocks can be opened (no decryptors, or decryptors for other keys / selectors) has no
+        #      session key to give: reading is an error, with MAC checking on and off - never a made-up key
+        for _ in range(ctx.budget(6, 60)):
+            kinds = r.sample(kinds_all, r.randrange(1, 4))
+            cm, comps = B.gen_file(r, enc_prob=0.3, max_comps=1)
+            fobj = Bec2File(B.build(cm, comps), blocks_of(kinds), C.gen_key(r))
+            s = io.StringIO()
+            fobj.write_file(s, encs_of(kinds))
+            wrong = [[], [SoftwareCustKeyEncryptor(bytes(r.randrange(256) for _ in range(16)))],
+                     [EccDecryptor(2, other_rcp)], [ConfigSecurityCodeEncryptor(b"87654321")]]
+            for decs in wrong:
+                for check in (True, False):
+                    ctx.case(("no-block-opens", tuple(kinds), len(decs), check))
+                    g = run_impl(Bec2File.read_file, io.StringIO(s.getvalue()), decs, check)
+                    if g[0] == "ok":
+                        ctx.fail("key-without-block", {"kinds": kinds, "decryptors": [type(x).__name__ for x in decs], "check_cmac": check},
+                                 "read_file returned a file with session key %r although no block could be opened"
+                                 % (getattr(g[1], "session_key", None),))
         # (3) pass-through over repeated read/write cycles
         for _ in range(ctx.budget(8, 100)):
             kinds = r.sample(kinds_all, r.randrange(2, 4))
